@@ -22,6 +22,7 @@ import itertools
 import json
 import math
 import random
+import re
 
 import numpy as np
 
@@ -114,6 +115,18 @@ def capture_mode(prog, flav, x, y, dyn, how, sub=False, want_rets=False, wrap=No
         qp.capture.disable()
 
 
+def autograph_mode(fn, x, y, want_rets=False):
+    from pennylane.tape.plxpr_conversion import CollectOpsandMeas
+    qp.capture.enable()
+    try:
+        pl = qp.capture.make_plxpr(fn, autograph=True)(x, y, 0)
+        t = qp.tape.plxpr_to_tape(pl.jaxpr, pl.consts, x, y, 0)
+        rets = [int(v) for v in CollectOpsandMeas().eval(pl.jaxpr, pl.consts, x, y, 0)] if want_rets else None
+        return t, rets
+    finally:
+        qp.capture.disable()
+
+
 def run(tier, seed):
     rng = random.Random(seed)
     quick = tier == "quick"
@@ -160,6 +173,11 @@ def run(tier, seed):
         d = [qcap.first_diff(desc, e) for e in exps]
         return None if any(x is None for x in d) else d[0]
 
+    # every (other) program also as a source file with native control flow, for autograph
+    items = [(idx, vs) for idx, (_, vs) in enumerate(groups.items()) if not vs[0]["tape"]["err"]]
+    agset = {idx for n, (idx, vs) in enumerate(items) if not quick or n % 2 == 0}
+    srcmod = qcap.write_module(lib.workdir("C42", "src") / "c42_programs.py",
+                               [(f"p{idx}", vs[0]["prog"], vs[0]["flav"], idx % 2 == 1) for idx, vs in items if idx in agset])
     for idx, ((pj, flav), vs) in enumerate(groups.items()):
         prog = vs[0]["prog"]
         rep = {"prog": prog, "flav": flav}
@@ -185,16 +203,34 @@ def run(tier, seed):
         flavs = [(False, "make_plxpr", False), (True, "jax.make_jaxpr", False)]
         if idx % 3 == 0:
             flavs.append((idx % 2 == 0, "make_plxpr", True))
+        if idx in agset:
+            # the program as Python source with native for / while / if: run directly (tape mode) and through autograph
+            try:
+                fn = getattr(srcmod, f"p{idx}")
+                t3 = qp.tape.make_qscript(fn)(X0, Y0, 0)
+                df = match(qcap.describe_tape(t3), exps)
+            except Exception as e:                   # pylint: disable=broad-except
+                df = (f"crash:{type(e).__name__}", f"{type(e).__name__}: {e}")
+            if df:
+                report(f"python-source:{df[0]}", "the program written with native Python control flow, run in tape mode, differs from the expected "
+                       "recording: " + df[1], dict(rep, source=qcap.source(prog, flav, idx % 2 == 1, f"p{idx}")))
+                continue
+            flavs.append((idx % 2 == 1, "autograph", False))
         ok = True
         for dyn, how, sub in flavs:
             try:
-                t2, r2, _ = capture_mode(prog, flav, X0, Y0, dyn, how, sub=sub, want_rets=bool(erets))
-                d2 = qcap.describe_tape(t2)
+                if how == "autograph":
+                    t2, r2 = autograph_mode(getattr(srcmod, f"p{idx}"), X0, Y0, want_rets=bool(erets))
+                else:
+                    t2, r2, _ = capture_mode(prog, flav, X0, Y0, dyn, how, sub=sub, want_rets=bool(erets))
             except Exception as e:                   # pylint: disable=broad-except
-                report(f"capture:crash:{type(e).__name__}", f"capture ({how}, dynamic={dyn}, subroutines={sub}) raised {type(e).__name__}: {str(e)[:300]}",
+                inner = re.search(r"^\s+(\w+(?:Error|Exception)):", str(e), re.M)
+                report(f"capture:crash:{type(e).__name__}" + (f":{inner.group(1)}" if inner else ""),
+                       f"capture ({how}, dynamic={dyn}, subroutines={sub}) raised {type(e).__name__}: {str(e)[:300]}",
                        dict(rep, dyn=dyn, how=how, sub=sub))
                 ok = False
                 continue
+            d2 = qcap.describe_tape(t2)
             st["captures"] += 1
             st[f"capture_{how}"] += 1
             st["capture_dynamic" if dyn else "capture_static"] += 1
@@ -271,7 +307,9 @@ def run(tier, seed):
         "wires and loop values are integers (capture requires numeric wires); run-time arguments x, y are floats, k = 0 shifts bounds/predicates",
         "transform clause: only decompose has a plxpr implementation in this tree (DecomposeInterpreter, decompose_plxpr_to_plxpr); a function wrapped "
         "by qp.transforms.<t>(qfunc) is captured as an opaque 'transform' primitive that only Catalyst applies - not part of the statement",
-        "autograph (conversion of native Python control flow) is not exercised: programs use qp.for_loop / qp.while_loop / qp.cond explicitly"])
+        "autograph: the program is also generated as Python source with native for / while / if (qp.cond only for measurement values); a loop "
+        "variable read by a function defined inside the loop body is initialised before the loop (autograph otherwise refuses the function with "
+        "AutoGraphError 'potentially uninitialized' - a restriction, not counted)"])
 
 
 # ---------------------------------------------------------------------- decompose: capture path vs tape path (REL)
